@@ -788,6 +788,10 @@ impl IRBuilder {
         pre_compute_schema: &[String],
     ) -> Result<IRNode, String> {
         let schema = input.output_schema();
+        // Mirror build_computed_columns, which extends its schema with every column it
+        // computes: once `V = X + 1` has bound V, a later `V = 2` (or `Z = V`) is a
+        // filter on the computed column, not a second assignment.
+        let mut bound_schema: Vec<String> = pre_compute_schema.to_vec();
 
         for pred in &rule.body {
             if let BodyPredicate::Comparison(left, op, right) = pred {
@@ -795,12 +799,14 @@ impl IRBuilder {
                 // but only if they were ACTUALLY processed (variable was new/unbound).
                 // Use the pre-compute schema to distinguish: if the variable was already
                 // bound BEFORE computed columns ran, it's a filter, not an assignment.
-                if Self::is_computed_column_assignment_in_schema(
-                    left,
-                    op,
-                    right,
-                    pre_compute_schema,
-                ) {
+                if Self::is_computed_column_assignment_in_schema(left, op, right, &bound_schema) {
+                    for term in [left, right] {
+                        if let Term::Variable(v) = term {
+                            if !bound_schema.contains(v) {
+                                bound_schema.push(v.clone());
+                            }
+                        }
+                    }
                     continue;
                 }
 
